@@ -1,7 +1,8 @@
-(* C09 — Series request limits are enforced (partial: the limiter and the limiting
-   server wrapper of pkg/store/limiter.go, and the reservation schedule of
-   BucketStore.Series with eagerly expanded postings — ExpandPostings / nextBatch in
-   bucket.go; lazily expanded postings and the request's own Limit field are not modelled).
+(* C09 — Series request limits are enforced: the limiter and the limiting server wrapper of
+   pkg/store/limiter.go, and the reservation schedule of BucketStore.Series — ExpandPostings /
+   nextBatch in bucket.go — with eagerly and lazily expanded postings and the request's own
+   Limit field. (The theorems about a single Limiter keep the hypothesis "total < 2^64", where
+   the uint64 counter would wrap; their names say _partial for that reason.)
    Property theorems only; each is closed by [exact] of a lemma of Proofs/C09.v.
    Full statement kept visible: "a Series call that succeeds never returns more series
    than the series limit or more chunks than the chunk limit, and a request that would
@@ -52,31 +53,38 @@ Theorem C09_no_silent_truncation_partial : forall sl cl rs, tot_s rs < two64 -> 
 Proof. exact server_no_silent_truncation. Qed.
 Print Assumptions C09_no_silent_truncation_partial.
 
-(* BucketStore.Series, eager postings: every block client reserves len(postings) series and,
-   per returned series, its chunks in the time range, on limiters shared by the whole
-   request. For all blocks, all limit values, chunks skipped or not: a request that succeeds
-   sends at most the limits (returned <= reserved <= limit) ... *)
-Theorem C09_store_bound_partial : forall sl cl skip blocks,
-  N.of_nat (length (concat blocks)) < two64 -> returned_chunks skip blocks < two64 ->
-  store_ok sl cl skip blocks = true ->
-  within sl (returned_series blocks) = true /\ within cl (returned_chunks skip blocks) = true.
+(* BucketStore.Series. A request = the blocks selected for it, each seen by its block client as
+   the fetched postings in order with, per posting, "passes the lazily applied matchers" and
+   "chunks in the time range" (Model/C09.v: blockq). Both expansion modes are covered:
+   eager (ExpandPostings truncates to the request's Limit and reserves len(postings); nextBatch
+   reserves chunks per sent series) and lazy (nextBatch additionally reserves seriesMatched per
+   batch). All block clients share the request's two limiters.
+   For all blocks, every mix of eager and lazy blocks, every batch size >= 1, every request
+   Limit, chunks skipped or not, all limit values: a request that succeeds sends at most the
+   limits (sent <= reserved <= limit). [nowrap] = the reserved totals stay below 2^64. *)
+Theorem C09_store_bound : forall sl cl bsz skip reqlim blocks, (1 <= bsz)%nat -> nowrap bsz skip reqlim blocks ->
+  store_ok sl cl bsz skip reqlim blocks = true ->
+  within sl (returned_series bsz skip reqlim blocks) = true /\
+  within cl (sum_n (chunk_reservations bsz skip reqlim blocks)) = true.
 Proof. exact store_bound. Qed.
-Print Assumptions C09_store_bound_partial.
+Print Assumptions C09_store_bound.
 
-(* ... and a request whose result exceeds a limit is refused (every reservation that the
-   result needs is made before the data is sent), never shortened. *)
-Theorem C09_store_no_silent_truncation_partial : forall sl cl skip blocks,
-  N.of_nat (length (concat blocks)) < two64 -> returned_chunks skip blocks < two64 ->
-  (sl <> 0 /\ sl < returned_series blocks) \/ (cl <> 0 /\ cl < returned_chunks skip blocks) ->
-  store_ok sl cl skip blocks = false.
+(* No silent truncation (request Limit 0, i.e. the caller did not ask for a cut): on success the
+   block clients send every series the blocks hold for the request with all its chunks in range;
+   and if that result exceeds a limit the request is refused (the reservations that the result
+   needs are made before the data is sent) — in both expansion modes. *)
+Theorem C09_store_no_silent_truncation : forall sl cl bsz skip blocks, (1 <= bsz)%nat -> nowrap bsz skip 0 blocks ->
+  returned_series bsz skip 0 blocks = true_series blocks /\
+  sum_n (chunk_reservations bsz skip 0 blocks) = true_chunks skip blocks /\
+  ((sl <> 0 /\ sl < true_series blocks) \/ (cl <> 0 /\ cl < true_chunks skip blocks) ->
+   store_ok sl cl bsz skip 0 blocks = false).
 Proof. exact store_no_silent_truncation. Qed.
-Print Assumptions C09_store_no_silent_truncation_partial.
+Print Assumptions C09_store_no_silent_truncation.
 
-Theorem C09_store_pred : forall sl cl skip blocks sres cres tseries,
-  N.of_nat (length (concat blocks)) < two64 -> returned_chunks skip blocks < two64 ->
-  tseries <= returned_series blocks ->
-  pred_ok (CStore sl cl skip blocks (store_ok sl cl skip blocks) (negb (store_ok sl cl skip blocks)) sres cres
-                  tseries (returned_chunks skip blocks) tseries (returned_chunks skip blocks)) = true.
+Theorem C09_store_pred : forall sl cl bsz skip blocks sres cres tseries, (1 <= bsz)%nat -> nowrap bsz skip 0 blocks ->
+  tseries <= true_series blocks ->
+  pred_ok (CStore sl cl bsz skip 0 blocks (store_ok sl cl bsz skip 0 blocks) (negb (store_ok sl cl bsz skip 0 blocks)) sres cres
+                  tseries (true_chunks skip blocks) tseries (true_chunks skip blocks)) = true.
 Proof. exact store_case_pred. Qed.
 Print Assumptions C09_store_pred.
 
@@ -126,6 +134,11 @@ Example C09_nonvacuous :
   sum_n [2; 3; 1; 0] < two64 /\
   (* two blocks: 3 matched series (one without chunks in range) and 2; series limit 5 is
      needed although 4 series are returned; chunk limit 7 = 3+2+1+1 *)
-  store_ok 5 7 false [[3; 0; 2]; [1; 1]] = true /\ store_ok 4 7 false [[3; 0; 2]; [1; 1]] = false /\
-  store_ok 5 6 false [[3; 0; 2]; [1; 1]] = false /\ returned_series [[3; 0; 2]; [1; 1]] = 4.
+  (let bs := [mkB false [(true, 3); (true, 0); (true, 2)]; mkB true [(true, 1); (false, 2); (true, 1)]] in
+   (* eager block: 3 postings reserved, 2 sent; lazy block, batch size 2: batches reserve 1 and 1 *)
+   series_reservations 2 false 0 bs = [3; 1; 1] /\ chunk_reservations 2 false 0 bs = [3; 2; 1; 1] /\
+   returned_series 2 false 0 bs = 4 /\ true_series bs = 4 /\
+   store_ok 5 7 2 false 0 bs = true /\ store_ok 4 7 2 false 0 bs = false /\ store_ok 5 6 2 false 0 bs = false /\
+   (* request Limit 1: the eager block keeps 1 posting; each batch of the lazy block stops after its first match *)
+   series_reservations 2 false 1 bs = [1; 1; 1] /\ returned_series 2 false 1 bs = 3 /\ nowrap 2 false 0 bs).
 Proof. vm_compute. repeat split; reflexivity. Qed.
